@@ -126,7 +126,34 @@ func addressSensitiveForSure(sc *formula.SourceCode, data val.V) bool {
 
 // evalTreeKeep also hands back the value itself (to look at it again later).
 func evalTreeKeep(sc *formula.SourceCode, data val.V) (interface{}, string) {
+	return evalOnMap(sc, shallowCopy(builtFor(data)))
+}
+
+// builtFor builds the Go values of a data spec once per spec (the last few specs are kept): every evaluation of a case gets
+// its own top-level map over the SAME nested objects, so that texts into which fmt has formatted the address of a nested
+// pointer are identical from evaluation to evaluation (an address cut or replaced by a string builtin cannot be masked).
+// Evaluation does not modify nested data (C07); a mutant that does is seen as a difference between the repeats.
+var builtCache = map[*val.KV]map[string]interface{}{}
+
+func builtFor(data val.V) map[string]interface{} {
+	if len(data.M) == 0 {
+		m, _ := val.Build(data, &val.Env{}).(map[string]interface{})
+		return m
+	}
+	key := &data.M[0]
+	if m, ok := builtCache[key]; ok {
+		return m
+	}
+	if len(builtCache) > 32 {
+		builtCache = map[*val.KV]map[string]interface{}{}
+	}
 	m, _ := val.Build(data, &val.Env{}).(map[string]interface{})
+	builtCache[key] = m
+	return m
+}
+
+// evalOnMap evaluates on a fresh runner over the given map.
+func evalOnMap(sc *formula.SourceCode, m map[string]interface{}) (interface{}, string) {
 	r := formula.NewRunner()
 	// a runner fresh from NewRunner holds nothing: neither a data map nor anything in its auxiliary store (every
 	// evaluation of this monitor leaves a mark in the store of the runner it used)
@@ -289,7 +316,7 @@ var c08Pure = core.Mon(c08, "repeat-and-interleave", func(w *core.W, c *PureCase
 	// against it): what one evaluation does must not change what the next one sees. Locals are the
 	// formulas' own writes into the map and are removed after each evaluation.
 	if !clock {
-		shared, _ := val.Build(c.Data, &val.Env{}).(map[string]interface{})
+		shared := shallowCopy(builtFor(c.Data))
 		own := map[string]bool{}
 		for k := range shared {
 			own[k] = true
@@ -355,7 +382,8 @@ func orderList(seed int64, shard, n int) []EvalCase {
 	w := core.NewW("C08", "quick", seed, shard, 1, "")
 	r := w.RNG("order-list")
 	cfg := fixNums(EvalSyntax())
-	datas := []val.V{StdData(r), StdData(r), StdData(r)}
+	// (no heap addresses in these data: the outcomes are compared between processes)
+	datas := []val.V{val.StripAddr(StdData(r)), val.StripAddr(StdData(r)), val.StripAddr(StdData(r))}
 	var out []EvalCase
 	// every builtin with constant and data-dependent arguments in each position
 	for _, b := range gen.Builtins {
